@@ -2,6 +2,7 @@ SPECIFICATION Spec
 CONSTANTS
   MaxConds = 2
   MaxItems = 3
+  RuleVariant = "tree"
 INVARIANT C08_PatternsAreCompleteQuotedValues
 INVARIANT LemmaNoDuplicate
 INVARIANT LemmaComplete
